@@ -462,4 +462,65 @@ def rule_sh3(ctx):
     return total
 
 
+def rule_sh4(ctx):
+    from ..shape import AObj, AttributeErrorSim
+    r = ctx.r
+    r.rule("SH4", "Subspace.intersect interpreted on abstract subspaces: "
+                  "elementwise -> broadcast(outer1, outer2) + (q, n); "
+                  "pairwise -> outer1 + outer2 + (q, n) (q = dimension of "
+                  "the intersection)")
+    core = ctx.p.module_by_rel(CORE)
+    proj = ctx.p.module_by_rel(PROJ_REL)
+    it = Interp(proj.tree, extra_trees=(("utils", core.tree),))
+    it.project = ctx.p
+    it.rel_prefix = {PROJ_REL: "", CORE: "utils"}
+    S = ctx.p.get_class(PROJ_REL, "Subspace")
+    it.ctor_classes = {"Subspace": (S, 2)}
+    f = ctx.p.get_function(PROJ_REL, "Subspace.intersect")
+    r.analysed(f)
+    R = 2 if ctx.tier == "quick" else 3
+    bad = []
+    total = 0
+    for mode in ("elementwise", "pairwise"):
+        for i in range(R + 1):
+            for j in range(R + 1):
+                if mode == "elementwise":
+                    if i != j:
+                        continue     # documented: same composite shape
+                    O1 = tuple(f"X{q}" for q in range(i, 0, -1))
+                    O2 = tuple(f"X{q}" for q in range(j, 0, -1))
+                else:
+                    O1 = tuple(f"N{q}" for q in range(1, i + 1))
+                    O2 = tuple(f"M{q}" for q in range(1, j + 1))
+                total += 1
+                a = AObj(S, proj=AArr(O1 + ("k1", "n")), unit_ndims=2)
+                b = AObj(S, proj=AArr(O2 + ("k2", "n")), unit_ndims=2)
+                want = (bshape(O1, O2) if mode == "elementwise"
+                        else O1 + O2) + ("q", "n")
+                try:
+                    res = it.call_node(f.node, [a, b, mode])
+                    got = res.proj_data.shape if isinstance(res, AObj) else None
+                    if got != want:
+                        raise ShapeError(f"result shape {got}, documented "
+                                         f"{want}")
+                except (ShapeError, DataDependent) as e:
+                    bad.append((f"{O1}+(k1,n) with {O2}+(k2,n) [{mode}]",
+                                str(e)))
+                except AttributeErrorSim as e:
+                    bad.append((f"{O1} [{mode}]", f"AttributeError {e}"))
+    r.extra["SH4_configurations"] = total
+    if not bad:
+        r.ok("SH4", "Subspace.intersect", loc(f, f.node), "",
+             f"{total} configurations give the documented shape")
+    else:
+        r.violation(
+            "SH4", f"{f.fq}|shapes", loc(f, f.node), "Subspace.intersect",
+            f"{len(bad)} of {total} configurations fail; first: "
+            f"{bad[0][0]}: {bad[0][1]}. In pairwise mode the kernel "
+            "coefficients (computed from the tiled spans) and the spanning "
+            "set they multiply no longer have matching composite axes, so "
+            "result[i, j] is not self[i] meet other[j]",
+            instance="Subspace.intersect")
+
+
 rule_sh1.fatal_unsupported = True
